@@ -20,11 +20,13 @@ pub struct Case {
     pub kinds: Vec<u8>,
     /// rings handed over closed (first == last) or open
     pub closed: bool,
+    /// measures: 0 distinct real data, 1 all NO_DATA, 2 all NaN, 3 only the first NO_DATA, 4 all -inf
+    pub mvar: u8,
 }
 
 impl Case {
     pub fn to_json(&self) -> Value {
-        json!({"ty": self.ty.name(), "lens": self.lens, "kinds": self.kinds, "closed": self.closed})
+        json!({"ty": self.ty.name(), "lens": self.lens, "kinds": self.kinds, "closed": self.closed, "mvar": self.mvar})
     }
     pub fn from_json(v: &Value) -> Option<Case> {
         let arr = |k: &str| -> Option<Vec<u64>> { v.get(k)?.as_array()?.iter().map(|x| x.as_u64()).collect() };
@@ -33,6 +35,7 @@ impl Case {
             lens: arr("lens")?.into_iter().map(|x| x as usize).collect(),
             kinds: arr("kinds")?.into_iter().map(|x| x as u8).collect(),
             closed: v.get("closed")?.as_bool()?,
+            mvar: v.get("mvar").and_then(|x| x.as_u64()).unwrap_or(0) as u8,
         })
     }
     fn hash(&self) -> u64 {
@@ -45,6 +48,15 @@ impl Case {
         let mut parts = vec![];
         for (l, kind) in self.lens.iter().zip(&self.kinds) {
             let mut pts: Vec<P4> = (0..*l).map(|i| dflt(k + i)).collect();
+            for (i, p) in pts.iter_mut().enumerate() {
+                p[3] = match self.mvar {
+                    0 => p[3],
+                    1 => NO_DATA,
+                    2 => f64::NAN,
+                    3 => if k + i == 0 { NO_DATA } else { p[3] },
+                    _ => f64::NEG_INFINITY,
+                };
+            }
             k += l;
             if self.closed && *l >= 2 {
                 let f = pts[0];
@@ -117,10 +129,16 @@ fn cases(tier: Tier) -> Vec<Case> {
     let (maxp, maxl) = tier.pick((4usize, 5usize), (6, 8));
     for ty in ALL13 {
         match ty.family() {
-            Family::Point => out.push(Case { ty, lens: vec![1], kinds: vec![0], closed: false }),
+            Family::Point => {
+                for mvar in 0..5u8 {
+                    out.push(Case { ty, lens: vec![1], kinds: vec![0], closed: false, mvar });
+                }
+            }
             Family::Multipoint => {
                 for n in (1..=24).chain([100, 1000, 65536]) {
-                    out.push(Case { ty, lens: vec![n], kinds: vec![0], closed: false });
+                    for mvar in if n <= 4 { 0..5u8 } else { 0..1u8 } {
+                        out.push(Case { ty, lens: vec![n], kinds: vec![0], closed: false, mvar });
+                    }
                 }
             }
             fam => {
@@ -129,7 +147,20 @@ fn cases(tier: Tier) -> Vec<Case> {
                 // above that lengths from {min, min+1, maxl}
                 for p in 1..=maxp {
                     let alpha: Vec<usize> = if p <= 3 { (min..=maxl).collect() } else { vec![min, min + 1, maxl] };
-                    for lens in vectors(&alpha, p) {
+                    let mut all_lens = vectors(&alpha, p);
+                    if fam != Family::Polyline && p >= 2 {
+                        // empty parts anywhere but first (the constructors accept them)
+                        let mut with_zero: Vec<usize> = vec![0];
+                        with_zero.extend(alpha.iter().copied().filter(|l| *l <= min + 2));
+                        for mut v in vectors(&with_zero, p - 1) {
+                            if v.contains(&0) {
+                                let mut x = vec![min + 1];
+                                x.append(&mut v);
+                                all_lens.push(x);
+                            }
+                        }
+                    }
+                    for lens in all_lens {
                         let kind_sets: Vec<Vec<u8>> = match fam {
                             Family::Polygon => vec![vec![0; p], (0..p).map(|i| (i % 2) as u8).collect()],
                             Family::Multipatch => vec![(0..p).map(|i| (i % 6) as u8).collect(), (0..p).map(|i| ((i + 3) % 6) as u8).collect()],
@@ -140,17 +171,19 @@ fn cases(tier: Tier) -> Vec<Case> {
                                 if closed && fam == Family::Polyline {
                                     continue;
                                 }
-                                out.push(Case { ty, lens: lens.clone(), kinds: kinds.clone(), closed });
+                                for mvar in if ty.carries_m() && p <= 2 { 0..5u8 } else { 0..1u8 } {
+                                    out.push(Case { ty, lens: lens.clone(), kinds: kinds.clone(), closed, mvar });
+                                }
                             }
                         }
                     }
                 }
                 // ladder of large shapes
                 for n in [10usize, 100, 1000, 65536] {
-                    out.push(Case { ty, lens: vec![n], kinds: vec![if fam == Family::Multipatch { 0 } else { 0 }], closed: false });
+                    out.push(Case { ty, lens: vec![n], kinds: vec![if fam == Family::Multipatch { 0 } else { 0 }], closed: false, mvar: 0 });
                 }
                 for p in [100usize, 1000] {
-                    out.push(Case { ty, lens: vec![2; p], kinds: (0..p).map(|i| if fam == Family::Multipatch { (i % 6) as u8 } else { (i % 2) as u8 * (fam == Family::Polygon) as u8 }).collect(), closed: false });
+                    out.push(Case { ty, lens: vec![2; p], kinds: (0..p).map(|i| if fam == Family::Multipatch { (i % 6) as u8 } else { (i % 2) as u8 * (fam == Family::Polygon) as u8 }).collect(), closed: false, mvar: 0 });
                 }
             }
         }
@@ -159,7 +192,7 @@ fn cases(tier: Tier) -> Vec<Case> {
 }
 
 fn selftest() -> (u64, u64) {
-    let case = Case { ty: Ty::PolygonZ, lens: vec![3, 4], kinds: vec![0, 1], closed: false };
+    let case = Case { ty: Ty::PolygonZ, lens: vec![3, 4], kinds: vec![0, 1], closed: false, mvar: 0 };
     if !judge(&case, &observe(&case)).is_empty() {
         return (1, 0);
     }
